@@ -41,6 +41,10 @@ func (f c07File) Source() string {
 		}
 		sb.WriteString("---" + nl)
 		for _, kv := range f.fm {
+			if kv[1] == "" { // an empty value, written in each of the ways YAML has for it
+				fmt.Fprintf(&sb, "%s:%s%s", kv[0], []string{` ""`, " ~", " null", "", " ''"}[(h+len(kv[0])+c07FenceStyle)%5], nl)
+				continue
+			}
 			fmt.Fprintf(&sb, "%s: %q%s", kv[0], kv[1], nl)
 		}
 		sb.WriteString(closing)
@@ -237,7 +241,7 @@ func runC07(r *Run) {
 	r.Rule("layout graphs over {page.vuego, sub/page.vuego, a.vuego, sub/a.vuego, layouts/a.vuego, layouts/b.vuego, layouts/base.vuego}: every assignment of layout key in {none,a,b,base,a.vuego,zz(missing),self} to page, layouts/a, layouts/b, base " +
 		"x base present/absent x a relative a.vuego present/absent x colliding keys a,b across Fill data, page and layout front-matter x a layout named by Fill data x a failing link; " +
 		"plus explicit chains of 99/100/101/150 links, cycles of every length 1..4 and self-reference; non-trivial: chain length >= 2, a cycle, a missing target, or the default-base decision")
-	r.Assume("layout names contain no '.'/'..' path segments; front-matter values are strings; an empty layout value is not generated")
+	r.Assume("layout names contain no '.'/'..' path segments; front-matter values are strings or empty (written as an empty quoted string, ~, null or nothing)")
 	type cfg struct {
 		files []c07File
 		page  string
@@ -277,13 +281,15 @@ func runC07(r *Run) {
 		r.Count("outcome:" + *want.List[0].Atom)
 		r.Case("layouts", coq, impl, desc, c.tags, nontrivial)
 	}
-	layoutChoices := []string{"", "a", "b", "base", "a.vuego", "zz", "SELF"}
+	layoutChoices := []string{"", "a", "b", "base", "a.vuego", "zz", "SELF", "EMPTY"}
 	fmOf := func(self, choice string, extra ...[2]string) [][2]string {
 		var fm [][2]string
 		if choice == "SELF" {
 			choice = strings.TrimSuffix(strings.TrimPrefix(self, "layouts/"), ".vuego")
 		}
-		if choice != "" {
+		if choice == "EMPTY" {
+			fm = append(fm, [2]string{"layout", ""})
+		} else if choice != "" {
 			fm = append(fm, [2]string{"layout", choice})
 		}
 		return append(fm, extra...)
@@ -297,7 +303,7 @@ func runC07(r *Run) {
 					for variant := 0; variant < 4; variant++ {
 						basePresent := variant&1 == 1
 						relA := variant&2 == 2
-						if !r.Thorough() && rr.Intn(100) >= 45 {
+						if !r.Thorough() && rr.Intn(100) >= 32 {
 							continue
 						}
 						page := "page.vuego"
